@@ -31,15 +31,17 @@ CONSTANTS Script,     \* <<[kind, a], ...>>: the requests of the scenario, start
           InitDB,     \* database at the start of the scenario
           Delay,      \* TaskEnqueueDelay
           Known,      \* names of known findings (deviations of the code that are accepted and reported)
-          F1Fixed     \* FALSE: CreateCallback / CreateSubscription as they were before fix 75c0784
+          F1Fixed,    \* FALSE: CreateCallback / CreateSubscription as they were before fix 75c0784
+          Parties     \* how many of the requests / sweeps of the scenario take part in one behaviour
 
-VARIABLES db, now, co, started, nsweeps, hist, last
-vars == <<db, now, co, started, nsweeps, hist, last>>
+VARIABLES db, now, co, started, nsweeps, hist, last, sel
+vars == <<db, now, co, started, nsweeps, hist, last, sel>>
 
 (***************************************************************************)
 (* Coroutine instances.                                                    *)
 (***************************************************************************)
-NoCo == [kind |-> "", a |-> <<>>, ph |-> "", sub |-> "", tx |-> <<>>, dt |-> 0, t0 |-> 0, ready |-> FALSE,
+Rid(i) == "r" \o ToString(i)
+NoCo == [own |-> "", kind |-> "", a |-> <<>>, ph |-> "", sub |-> "", tx |-> <<>>, dt |-> 0, t0 |-> 0, ready |-> FALSE,
          res |-> <<>>, p |-> <<>>, x |-> <<>>, st |-> 0, body |-> <<>>, ct |-> 0,
          reply |-> None, eff |-> None, snaps |-> {}, sends |-> <<>>]
 
@@ -344,37 +346,38 @@ ReplyAllowed(c) ==
 (***************************************************************************)
 (* Actions.                                                                *)
 (***************************************************************************)
-Rid(i) == "r" \o ToString(i)
 Note(e) == hist' = Append(hist, e)
 
 Init ==
   /\ db = InitDB /\ now = CHOOSE t \in Times : \A u \in Times : t <= u
   /\ co = <<>> /\ started = {} /\ nsweeps = 0 /\ hist = <<>> /\ last = [e |-> "init"]
+  \* the parties of this behaviour: every choice of Parties of the scenario's requests and sweeps
+  /\ sel \in {s \in SUBSET ({Rid(i) : i \in DOMAIN Script} \cup Sweeps) : Cardinality(s) = Parties}
 
 \* a request is admitted and its coroutine runs up to its first yield
 Start(i) ==
-  /\ i \in DOMAIN Script /\ i \notin started
+  /\ i \in DOMAIN Script /\ Rid(i) \in sel /\ i \notin started
   /\ started' = started \cup {i}
-  /\ LET c0 == [NoCo EXCEPT !.kind = Script[i].kind, !.a = Script[i].a, !.ph = "start"] IN
+  /\ LET c0 == [NoCo EXCEPT !.own = Rid(i), !.kind = Script[i].kind, !.a = Script[i].a, !.ph = "start"] IN
      /\ co' = Put(co, Rid(i), Run(c0, now))
      /\ last' = [e |-> "start", c |-> Rid(i), rok |-> ReplyAllowed(Run(c0, now))]
   /\ Note([e |-> "start", c |-> Rid(i), i |-> i])
-  /\ UNCHANGED <<db, now, nsweeps>>
+  /\ UNCHANGED <<db, now, nsweeps, sel>>
 
 Sweep(kind) ==
-  /\ kind \in Sweeps /\ nsweeps < MaxSweeps
+  /\ kind \in Sweeps /\ kind \in sel /\ nsweeps < MaxSweeps
   /\ ~ \E id \in DOMAIN co : co[id].kind = kind /\ co[id].ph # "done"     \* one instance at a time (system.go)
   /\ nsweeps' = nsweeps + 1
   /\ LET id == kind \o ToString(nsweeps + 1)
-         c0 == [NoCo EXCEPT !.kind = kind, !.ph = "start"] IN
+         c0 == [NoCo EXCEPT !.own = id, !.kind = kind, !.ph = "start"] IN
      /\ co' = Put(co, id, Run(c0, now))
      /\ Note([e |-> "sweep", c |-> id, kind |-> kind]) /\ last' = [e |-> "sweep", c |-> id]
-  /\ UNCHANGED <<db, now, started>>
+  /\ UNCHANGED <<db, now, started, sel>>
 
 Advance(t) ==
   /\ t \in Times /\ t > now /\ now' = t
   /\ Note([e |-> "advance", t |-> t]) /\ last' = [e |-> "advance"]
-  /\ UNCHANGED <<db, co, started, nsweeps>>
+  /\ UNCHANGED <<db, co, started, nsweeps, sel>>
 
 \* the store commits the transaction coroutine id is parked at
 Commit(id) ==
@@ -390,14 +393,14 @@ Commit(id) ==
      /\ last' = [e |-> "commit", c |-> id, ok |-> CommitAllowed(c, db, S2),
                  f14 |-> IsF14(db, c.tx) /\ S2 # db]
   /\ Note([e |-> "commit", c |-> id, p |-> IF co[id].kind = "TimeoutChild" THEN co[id].p[1].id ELSE ""])
-  /\ UNCHANGED <<now, started, nsweeps>>
+  /\ UNCHANGED <<now, started, nsweeps, sel>>
 
 \* the router answers (routing itself is C19's business: here it follows the tag)
 Route(id) ==
   /\ id \in DOMAIN co /\ co[id].sub = "router" /\ ~ co[id].ready
   /\ co' = [co EXCEPT ![id].ready = TRUE]
   /\ Note([e |-> "route", c |-> id]) /\ last' = [e |-> "route", c |-> id]
-  /\ UNCHANGED <<db, now, started, nsweeps>>
+  /\ UNCHANGED <<db, now, started, nsweeps, sel>>
 
 \* the transport takes or refuses the tasks handed to it
 Send(id, outcomes) ==
@@ -406,20 +409,20 @@ Send(id, outcomes) ==
   /\ co' = [co EXCEPT ![id].ready = TRUE,
                       ![id].sends = [i \in DOMAIN outcomes |-> [id |-> co[id].sends[i].id, outcome |-> outcomes[i]]]]
   /\ Note([e |-> "send", c |-> id, outcomes |-> outcomes]) /\ last' = [e |-> "send", c |-> id]
-  /\ UNCHANGED <<db, now, started, nsweeps>>
+  /\ UNCHANGED <<db, now, started, nsweeps, sel>>
 
 \* the completion is delivered and the coroutine runs up to its next yield
 Resume(id) ==
   /\ id \in DOMAIN co /\ co[id].ready
   /\ LET c == Run(co[id], now)
          kids == IF co[id].kind = "TimeoutPromises" /\ co[id].ph = "read" THEN co[id].res[1].recs ELSE <<>>
-         kid(i) == Run([NoCo EXCEPT !.kind = "TimeoutChild", !.ph = "start", !.p = <<kids[i]>>], now)
+         kid(i) == Run([NoCo EXCEPT !.own = id, !.kind = "TimeoutChild", !.ph = "start", !.p = <<kids[i]>>], now)
      IN co' = [x \in (DOMAIN co) \cup {id \o "." \o kids[i].id : i \in DOMAIN kids} |->
                  IF x = id THEN c
                  ELSE IF x \in DOMAIN co THEN co[x]
                  ELSE kid(CHOOSE i \in DOMAIN kids : x = id \o "." \o kids[i].id)]
   /\ Note([e |-> "resume", c |-> id]) /\ last' = [e |-> "resume", c |-> id, rok |-> ReplyAllowed(Run(co[id], now))]
-  /\ UNCHANGED <<db, now, started, nsweeps>>
+  /\ UNCHANGED <<db, now, started, nsweeps, sel>>
 
 Next ==
   \/ \E i \in DOMAIN Script : Start(i)
@@ -438,9 +441,9 @@ I_CommitRefines == last.e = "commit" => last.ok
 I_ReplyLinearizable == last.e \in {"start", "resume"} => last.rok
 \* nobody waits for ever: when nothing is enabled any more every request has been answered
 Quiescent == \A id \in DOMAIN co : co[id].ph = "done"
-AllStarted == started = DOMAIN Script
+AllStarted == \A i \in DOMAIN Script : Rid(i) \in sel => i \in started
 TypeOK == WellFormed(db)
-View == <<db, now, co, started, nsweeps, last>>
+View == <<db, now, co, started, nsweeps, last, sel>>
 
 \* the step properties of Props.tla, for every commit of every coroutine
 A_C01 == [][/\ C01_WriteOnce(db, db') /\ C01_PendingLeavesOnce(db, db') /\ C01_CreationImmutable(db, db')
